@@ -49,6 +49,13 @@ func srcKey(v ssa.Value, depth int) string {
 		if f, _ := fieldOfAddr(x); f != nil {
 			return srcKey(x.X, depth+1) + "." + f.Name()
 		}
+	case *ssa.IndexAddr:
+		return srcKey(x.X, depth+1) + "[" + srcKey(x.Index, depth+1) + "]"
+	case *ssa.Const:
+		if x.Value != nil {
+			return x.Value.ExactString()
+		}
+		return "nil"
 	case *ssa.Field:
 		return srcKey(x.X, depth+1) + ".#" + fmt.Sprint(x.Field)
 	case *ssa.Parameter:
